@@ -80,6 +80,7 @@ def build(spec):
     kind = KINDS[i % 5]
     est = ["nonparametric", "gaussian", "bootstrap"][(i // 5) % 3]
     o = dict(estimator=est, el_n_units=int(rng.integers(50, 140)), el_n_zero_baseline=2, feed_n_unexpected=2,
+             allow_pointer_config=False,
              feed_frac_reporting=0.6, feed_p_partial=0.8, must_aggregates=["postal_code", "unit", "county_fips"],
              feed_unexpected_kinds=["known_county", "unknown_county"], B=10)
     if kind == "state_blocklisted":
